@@ -133,3 +133,8 @@ reg("C26", "model_checking",
     "TLC enumerates every reachable (shape, operation) pair of the structural spec (3 497 states, 48 958 transitions, 295 shapes for keys 1..7; ShapeOK and StepOK checked) and a covering tour executes each transition on the real tree (one implementation test per transition); "
     "seeded random insert/erase/query histories over small and full 32-bit key ranges and the C25 concurrent-insert machinery on BTreeDelete.h are validated against SortedSetAbs; small-node histories are also replayed by TLC on BTreeSeq for depth 3-4.",
     COOP_NOTE + " Full transition coverage is for maxKeys 3 and depth <= 2; deeper trees and the default block size are covered by seeded random histories only.", "DESIGN.md 9 C26")
+reg("C21", "model_checking",
+    "TLA+ spec of the embedding API as a state machine (spec/Api.tla; run() = spec/Datalog.tla's evaluation from the current contents) model-checked by TLC; TLC's state graph gives covering call sequences that harness/apidrv.cpp replays on the generated C++ (souffle -g + embedding driver), comparing every return value and the contents after every call with the spec state; plus TLC-computed models of generator programs compared with API insert+run, purge+re-run and runAll from fact files",
+    "Exhaustive for 4 (quick) / 8 (thorough) small programs over a 2-tuple universe per input relation and <=4 / <=6 state-changing calls (851 / 3917 spec states, every transition replayed once on the real code: 2133 / 15442 call sequences, contains/size/iterate compared after every call); "
+    "for generator programs (48 / 803 EDB cases) API insert+run, purge and re-run, and runAll from fact files are compared with TLC's model.",
+    EVAL_NOTE + " Results of runs on stale derived relations are compared but only reported as MODEL-DRIFT (the property is silent there); programs with compiler-introduced relations are excluded from the graph part; eqrel, float and unsigned columns not covered.", "DESIGN.md 9 C21")
